@@ -14,6 +14,10 @@ on a fresh terminal; everything a redraw writes lies between exactly one synchro
 begin/end pair and is flushed; after start / stop / clear no placement remains; all live kitty
 widgets hold pairwise distinct z-indexes within [-(2**31-1), 2**31-1]; nothing raises.
 
+Part F: fault dimension - for the root scenes and every transition out of them, the k-th write of the
+redraw fails once (EAGAIN) for EVERY k; the application survives and redraws / changes the scene.  The
+failed redraw must still be bracketed by one begin/end pair; the following redraws are judged in full.
+
 Part Z: the z-index allocator alone - BFS over create / delete+gc orders of widgets of UrwidImage AND of a
 subclass of it (one allocator for all), also from states seeded next to the 2**31 limit.
 """
@@ -53,39 +57,39 @@ def roots(tier):
     slots = {"kitty": ["K", "B", "K"], "konsole": ["K", "I", "B"], "other": ["B", "t", "B"]}
     out = []
 
-    def add(ident, size, layout, ov, depth, udepth=0, **kw):
-        out.append(dict(identity=ident, size=list(size), depth=depth, udepth=udepth,
+    def add(ident, size, layout, ov, depth, udepth=0, faults=False, **kw):
+        out.append(dict(identity=ident, size=list(size), depth=depth, udepth=udepth, faults=faults,
                         scene=dict(layout=layout, slots=kw.pop("slots", slots[ident]), ov=ov, **kw)))
 
     s = (12, 8)
     if quick:
-        add("kitty", s, "pile", ov_on, 3)
-        add("kitty", s, "list", ov_off, 3, scroll=1)
+        add("kitty", s, "pile", ov_on, 3, faults=True)
+        add("kitty", s, "list", ov_off, 3, scroll=1, faults=True)
         add("kitty", s, "tlist", ov_off, 2, udepth=2)
-        add("kitty", s, "cols", ov_img, 2)
+        add("kitty", s, "cols", ov_img, 2, faults=True)
         add("kitty", s, "bare", ov_off, 2)
         add("kitty", s, "solid", ov_off, 2)
-        add("konsole", s, "pile", ov_on, 3)
+        add("konsole", s, "pile", ov_on, 3, faults=True)
         add("konsole", s, "list", ov_off, 2, scroll=1)
-        add("konsole", s, "tlist", ov_off, 2, slots=["I", "K", "B"])
+        add("konsole", s, "tlist", ov_off, 2, slots=["I", "K", "B"], faults=True)
         add("konsole", s, "cols", ov_img, 2)
         add("konsole", s, "bare", ov_off, 2)
-        add("other", s, "pile", ov_on, 2)
+        add("other", s, "pile", ov_on, 2, faults=True)
         add("other", s, "list", ov_off, 2, scroll=1)
         return out
     for ident in ("kitty", "konsole"):
-        add(ident, s, "pile", ov_on, 4, udepth=3)
+        add(ident, s, "pile", ov_on, 4, udepth=3, faults=True)
         add(ident, s, "list", ov_off, 3, scroll=1, udepth=3 if ident == "konsole" else 0)
-        add(ident, s, "tlist", ov_off, 3)
+        add(ident, s, "tlist", ov_off, 3, faults=True)
         add(ident, s, "tlist", ov_off, 3, slots=slots[ident][1:] + slots[ident][:1])
-        add(ident, s, "cols", ov_img, 3)
-        add(ident, s, "bcols", ov_on, 3, slots=slots[ident][::-1])
+        add(ident, s, "cols", ov_img, 3, faults=True)
+        add(ident, s, "bcols", ov_on, 3, slots=slots[ident][::-1], faults=True)
         add(ident, s, "bare", ov_off, 3)
         add(ident, s, "solid", ov_off, 3)
         add(ident, (20, 10), "pile", ov_on, 3)
-        add(ident, (20, 10), "list", ov_off, 3, scroll=2)
+        add(ident, (20, 10), "list", ov_off, 3, scroll=2, faults=True)
         add(ident, (20, 10), "bcols", ov_img, 3)
-    add("other", s, "pile", ov_on, 3)
+    add("other", s, "pile", ov_on, 3, faults=True)
     add("other", s, "list", ov_off, 3, scroll=1)
     add("other", (20, 10), "cols", ov_on, 2)
     return out
@@ -196,6 +200,41 @@ def bfs(col, cfg, tier, start_hist, depth, keys):
                 col.sample(dict(cfg=dict(identity=cfg["identity"], size=cfg["size"], scene=cfg["scene"]),
                                 history=nh))
     return transitions
+
+
+FAULT_K_CAP = 400
+
+
+def faults(col, cfg, tier, op):
+    """Part F: the transition *op* out of the root scene, with the k-th write of its redraw failing once
+    (EAGAIN), for EVERY k up to the number of writes of that redraw; the application survives and goes on:
+    (a) redraws the identical canvas, then changes the scene; (b) changes the scene straight away.  The
+    failed redraw is judged on the bracket clause, the following redraws on everything."""
+    n = 0
+    for k in range(1, FAULT_K_CAP + 1):
+        fop = ["F", k] + list(op)
+        stage, rep = execute(col, cfg, [fop, ["redraw"], ["ovt"]], 0)
+        fired = True if stage is None else getattr(stage, "faults_fired", 0) > 0
+        if stage is not None:
+            stage.close()
+        if not fired:
+            break          # the redraw has fewer than k writes: every write of it has been failed once
+        n += 1
+        col.count()
+        col.inc("fault_executions")
+        col.max("fault_k", k)
+        col.add_distinct(h64(repr(("F", cfg["identity"], cfg["size"], cfg["scene"], fop))))
+        if stage is None or rep.hits:
+            continue
+        stage, rep = execute(col, cfg, [fop, ["ovt"], ["redraw"]], 1)
+        n += 1
+        col.count()
+        col.inc("fault_executions")
+        if stage is not None:
+            stage.close()
+    else:
+        col.notes.add(f"fault position cap {FAULT_K_CAP} reached")
+    return n
 
 
 def unmerged(col, cfg, tier, start_hist, depth, table):
@@ -369,6 +408,10 @@ def _shard(items):
     col.transitions = 0
     col.table = {}
     for item in items:
+        if item[0] == "F":
+            _, cfg, op = item
+            col.transitions += faults(col, cfg, _TIER, op)
+            continue
         if item[0] == "U":
             _, cfg, start = item
             unmerged(col, cfg, _TIER, start, cfg["udepth"], col.table)
@@ -405,6 +448,9 @@ def run(ctx):
         if cfg.get("udepth"):
             for op in ops:
                 items.append(("U", cfg, [list(op)]))
+        if cfg.get("faults"):
+            for op in ops:
+                items.append(("F", cfg, list(op)))
     items = explore.rotate(items)
     keys = set()
     transitions = 0
@@ -449,6 +495,9 @@ def run(ctx):
         "states are merged on (scene, widget z/disguise, class disguise state, allocator state); the canvases "
         "alive in urwid's CanvasCache are those of the last drawn scene, so merged states have equal futures",
         "text cells hidden under a placement are not compared",
+        "faults (part F): one write of a redraw raises BlockingIOError(EAGAIN) and takes no bytes; the bracket clause "
+        "is not judged when the refused bytes are the bracket's own BEGIN or END; after a lost write text cells are "
+        "not compared until the next full repaint (urwid's own line cache is stale then)",
     ]
 
 
